@@ -35,7 +35,7 @@ Oracle clauses (reference rules in mc/x_c19c20_ref.py):
   redirect-location / redirect-missing / secure-passthrough
   fanout-early-complete / fanout-complete-twice / fanout-complete-lost   outer lifespan.X.complete sent before every
                             mount sent its own / more than once / not at all although every mount did
-  e2e-*                     the same statements observed at the wire
+  e2e-* / dispatch-404*     the same statements observed at the wire (keys ...:e2e-...)
 """
 from __future__ import annotations
 
@@ -73,8 +73,9 @@ ASSUMPTIONS = [
     "treats as 'lifespan unsupported', are not 'complete' messages)",
     "environment model (fake transport, virtual loop) is bound to real sockets by ./check selftest",
 ]
-BOUNDS_DOC = {"quick": "n<=3 items, hops 0..3; fan-out 2 mounts all program pairs + 3 mounts selected, M<=1,S<=2",
-              "thorough": "n<=4 items, hops 0..4; fan-out 2 and 3 mounts all program tuples, M<=2,S<=3, trio R<=1"}
+BOUNDS_DOC = {"quick": "n<=3 items, hops 0..3; fan-out: all 64 program pairs + 5 selected triples, M<=1,S<=2,R=0",
+              "thorough": "n<=4 items, hops 0..4; fan-out: all 64 program pairs at M<=2,S<=3 (trio R<=1), all 512 triples "
+                          "at M<=1,S<=2"}
 BUDGET = {"quick": 100, "thorough": 1150}
 MAX_EXEC_PER_ITEM = 60000
 
@@ -675,10 +676,13 @@ def do_e2e(params: tuple, prefix: List[int]) -> ExecResult:
         if status != (200 if carrier == "h1" else 101):
             viol.append(V("e2e-dispatch-route", f"{tag}:status", status))
     elif expect[0] == "status":
+        clause = "dispatch-404" if carrier == "h1" else "dispatch-404-websocket"
+        stype = "http" if carrier == "h1" else "websocket"
         if insts:
-            viol.append(V("e2e-dispatch-404", f"{tag}:app-called", [(i.type, i.scope.get("path")) for i in insts]))
+            viol.append(V(clause, f"{engine}:{stype}:e2e-app-called", [(i.type, i.scope.get("path")) for i in insts]))
         if status != expect[1]:
-            viol.append(V("e2e-dispatch-404", f"{tag}:status-{status}", f"client saw {status}, wanted {expect[1]}; log {w.logrec}"))
+            viol.append(V(clause, f"{engine}:{stype}:e2e-status-{status}",
+                          f"client saw {status}, wanted {expect[1]}; log {w.logrec}"))
     elif expect[0] == "scope":
         _, client, scheme, host = expect
         if len(insts) != 1:
@@ -758,7 +762,7 @@ def cases(fam: tuple, tier: str) -> List[tuple]:
 def bounds(tier: str, params: Any) -> dict:
     if params[0] == "e2e":
         return {"M": 0, "S": 0, "R": 0}
-    if tier == "quick":
+    if tier == "quick" or len(params[2]) > 2:
         return {"M": 1, "S": 2, "R": 0}
     return {"M": 2, "S": 3, "R": 1 if params[1] == "trio" else 0}
 
